@@ -682,4 +682,10 @@ def run(chk):
     chk.ob("C12.R2:request-size-accounting", "the running request size is updated on every push (set on a new request, increased on a joined one)", request_size_accounting)
     channel_metrics_wiring(chk, P, "C12.R9:channel-metrics-wiring")
     request_hook_rule(chk, P, "C12.R4:request-hook")
+    from . import shapes
+    shapes.tls_iff_https(chk, P, "C12.R4:tls-iff-https")
+    _call = lambda nm: (lambda o, b: o[0] == "call" and o[1].callee.get("name") == nm)
+    shapes.returns_binop(chk, P, "C12.R10:content-length", "the declared content length of a request is its framing prefix plus its payload",
+                         "emit_otlp::client::http::HttpContent::content_len", "Add", _call("content_frame_len"), _call("content_payload_len"),
+                         "the Content-Length header would not match the body that is sent: the collector rejects the request or waits for bytes that never come")
     return chk
